@@ -11,7 +11,7 @@ SIGS = {
     'w_struct': sig('w_struct', [('i32', 'op'), ('u64', 'rows'), ('u64', 'cols'), ('u64', 'used'), ('in', 'vals', 8), ('in', 'rowptr', 8), ('in', 'colind', 8), ('out', 'out', NO, 8)]),
     'w_permute': sig('w_permute', [('u64', 'rows'), ('u64', 'cols'), ('u64', 'used'), ('in', 'vals', 8), ('in', 'rowptr', 8), ('in', 'colind', 8), ('in', 'pr', 8), ('in', 'pc', 8), ('out', 'out', NO, 8)]),
 }
-OPS = {0: 't.transpose(a)', 1: 't = a.transpose()', 2: 'clone(Deep)', 3: 'clone(Shallow), original destroyed'}
+OPS = {0: 't.transpose(a)', 1: 't = a.transpose()', 2: 'clone(Deep)', 3: 'clone(Shallow), original destroyed', 4: 'convert CSR -> CSCR -> CSR', 5: 'convert CSR -> Banded -> CSR', 6: 'layout rebuilt from Graph(as_is, matrix)'}
 
 
 def entry(rp, ci, vals, r, c):
@@ -43,19 +43,30 @@ def oracle_for(kind, rows, cols, rp, ci, vals, pr=None, pc=None):
 
     def oracle(get, rv, st, ex):
         o = lambda i: B64(get('out', i))
-        props = [('dimensions and number of entries of the result', z3.And(o(0) == R, o(1) == Cn, o(2) == used))]
+        ut = used
+        if kind == 'banded':
+            # the band format stores whole diagonals: the result may contain additional explicit zero entries
+            ut = irsym.simp(get('out', 2))
+            if irsym.is_sym(ut) or ut > R * Cn:
+                return [('number of entries of the result is a definite value <= rows*cols on the path', False)]
+            props = [('dimensions of the result; number of entries >= entries of the operand', o(0) == R and o(1) == Cn and ut >= used if not irsym.is_sym(o(0)) and not irsym.is_sym(o(1)) else z3.And(o(0) == R, o(1) == Cn, z3.BoolVal(ut >= used)))]
+        else:
+            props = [('dimensions and number of entries of the result', z3.And(o(0) == R, o(1) == Cn, o(2) == used))]
         if used == 0:
             return props
-        trp = [o(3 + i) for i in range(R + 1)]; tci = [o(3 + R + 1 + k) for k in range(used)]; tv = [o(3 + R + 1 + used + k) for k in range(used)]
-        props.append(('layout of the result is valid (row pointers monotone from 0 to used, indices in range, rows strictly sorted)', valid_layout(trp, tci, Cn, used)))
+        trp = [o(3 + i) for i in range(R + 1)]; tci = [o(3 + R + 1 + k) for k in range(ut)]; tv = [o(3 + R + 1 + ut + k) for k in range(ut)]
+        props.append(('layout of the result is valid (row pointers monotone from 0 to used, indices in range, rows strictly sorted)', valid_layout(trp, tci, Cn, ut)))
         eqs = []
         for i in range(R):
             for j in range(Cn):
-                src = (j, i) if kind == 'transpose' else ((i, j) if kind == 'clone' else (pr[i], pc[j]))
+                src = (j, i) if kind == 'transpose' else ((i, j) if kind in ('clone', 'banded') else (pr[i], pc[j]))
                 pa, va = entry(rp, ci, vals, src[0], src[1])
                 pt, vt = entry(trp, tci, tv, i, j)
-                eqs.append(z3.And(pa == pt, z3.Implies(pa, va == vt)))
-        props.append(('every entry of the result is the %s entry of the operand (presence and 64-bit value pattern), for all column indices' % {'transpose': 'transposed', 'clone': 'same', 'permute': 'permuted'}[kind], z3.And(*eqs)))
+                if kind == 'banded':
+                    eqs.append(z3.And(z3.Implies(pa, z3.And(pt, va == vt)), z3.Implies(z3.And(pt, z3.Not(pa)), vt == 0)))
+                else:
+                    eqs.append(z3.And(pa == pt, z3.Implies(pa, va == vt)))
+        props.append(('every entry of the result is the %s entry of the operand (presence and 64-bit value pattern), for all column indices' % {'transpose': 'transposed', 'clone': 'same', 'permute': 'permuted', 'banded': 'same (additional entries are +0.0)'}[kind], z3.And(*eqs)))
         return props
     return oracle
 
@@ -88,10 +99,14 @@ def jobs(quick):
         common = {'rows': rows, 'cols': cols, 'used': used, 'vals': vals or [0], 'rowptr': rp, 'colind': ci or [0], 'out': NO}
         shape = '%dx%d row lengths %s' % (rows, cols, list(lens))
         for op in OPS:
+            if op == 5:
+                continue   # SparseMatrixBanded::convert collects the offsets in a std::set with symbolic keys: pointer-valued selects in the inlined rb-tree descent are not modelled by the executor (covered with concrete patterns by the E2 part)
             if used == 0 and op >= 2 and rows * cols > 1:
                 continue
+            if used == 0 and op in (4, 6):
+                continue   # the generic conversions reject entry-free input by an explicit precondition (XASSERT(used_elements > 0) in SparseMatrixCSR::convert(const MT_&), non-empty arrays in the CSCR constructor): not claimed, as in the E2 part
             inp = dict(common); inp['op'] = op
-            js.append(('csr %s, %s, symbolic column indices' % (OPS[op], shape), 'w_struct', inp, base, oracle_for('transpose' if op < 2 else 'clone', rows, cols, rp, ci, vals), {}))
+            js.append(('csr %s, %s, symbolic column indices' % (OPS[op], shape), 'w_struct', inp, base, oracle_for('transpose' if op < 2 else ('banded' if op == 5 else 'clone'), rows, cols, rp, ci, vals), {}))
         if used >= 1 and rows * cols <= (6 if quick else 9) and used <= (3 if quick else 4):
             pr = [z3.BitVec('pr%d' % i, 64) for i in range(rows)]; pc = [z3.BitVec('pc%d' % i, 64) for i in range(cols)]
             pb = [z3.ULT(x, rows) for x in pr] + [z3.ULT(x, cols) for x in pc] + ([z3.Distinct(*pr)] if rows > 1 else []) + ([z3.Distinct(*pc)] if cols > 1 else [])
